@@ -416,6 +416,40 @@ def takers(ctx):
     return ctx.memo("takers", build)
 
 
+def full_test_switches(ctx, body):
+    """{switch block: block entered when `MAIN.capacity() == MAIN.len()` holds} for the switches of this body that test exactly that"""
+    out = {}
+    for bb in body.reachable():
+        t = body.term(bb)
+        if t["k"] != "switch":
+            continue
+        d = body.source_def(t["discr"])
+        if d is None or d[1] != "assign" or d[2]["rv"]["k"] != "binop" or d[2]["rv"]["op"] not in ("Eq", "Ne"):
+            continue
+        names = set()
+        for o in (d[2]["rv"]["a"], d[2]["rv"]["b"]):
+            sd = body.source_def(o)
+            if sd is not None and sd[1] == "call":
+                cc = ctx.call_at(body, sd[0].bb)
+                if ctx.role(body, cc.arg_path(0)) == MAIN:
+                    names.add(cc.tname)
+        if names == {HBT + "capacity", HBT + "len"}:
+            zero = [tb for v, tb in t["targets"] if v == 0]
+            if d[2]["rv"]["op"] == "Eq":
+                out[bb] = t["otherwise"]
+            elif zero:
+                out[bb] = zero[0]
+    return out
+
+
+def reentry_guard(ctx, body, rec_bb):
+    """the block entered when `MAIN.capacity() == MAIN.len()` holds, if that test dominates block rec_bb and rec_bb lies on its true edge"""
+    for bb, tb in full_test_switches(ctx, body).items():
+        if bb in body.dom().get(rec_bb, set()) and (tb in body.dom().get(rec_bb, set()) or tb == rec_bb) and body.preds(tb, True) == [bb]:
+            return tb
+    return None
+
+
 def loop_bound(ctx, body, head, blocks):
     """Constant trip count of a natural loop: `for _ in a..b` (Range::next) or a counter `c = c0; while c < N { …; c += 1 }`.
     Returns dict(trip, exh=(from_bb, to_bb) the exit taken when the bound is reached, kind) or None."""
@@ -434,7 +468,42 @@ def loop_bound(ctx, body, head, blocks):
                         exh = (c.target, tb)
             if exh is not None and exh[1] not in blocks:
                 return {"trip": _range_trip(ctx, body, c), "exh": exh, "kind": "range", "next": c}
-    # counted loop
+    # grow-until-there-is-room: `while MAIN.capacity() == MAIN.len() { ..grow(extra >= 1).. }`.  Every iteration installs a new, empty main
+    # table with room for at least one element (S-grow: capacity >= len + extra), so the test fails the next time: one iteration.
+    for x, full_t in full_test_switches(ctx, body).items():
+        if x not in blocks or full_t not in blocks:
+            continue
+        exits = [s_ for s_ in body.succs(x) if s_ not in blocks]
+        if len(exits) != 1:
+            continue
+        reps = {rb.path for rb, _, _ in replacer_sites(ctx)}
+        grow_bbs = set()
+        for c in ctx.calls(body):
+            lc = c.local_callee()
+            if c.loc.bb in blocks and lc is not None and is_self_s(ctx, body, c.arg_path(0)) \
+                    and (lc.path in reps or any(p in reps for p in ctx.reachable_bodies(lc.path))) \
+                    and any((body.op_const(a) or 0) >= 1 for a in c.args[1:]):
+                grow_bbs.add(c.loc.bb)
+        if not grow_bbs:
+            continue
+        # every way from the "full" edge back to the head passes such a call
+        seen = set()
+        st = [full_t]
+        back = False
+        while st:
+            y = st.pop()
+            if y in seen or y in grow_bbs or y not in blocks:
+                continue
+            seen.add(y)
+            for s_ in body.succs(y):
+                if s_ == head:
+                    back = True
+                st.append(s_)
+        if back:
+            continue
+        return {"trip": 1, "exh": (x, exits[0]), "kind": "regrow", "next": None}
+    # counted loop: a counter initialised to a constant outside the loop, changed by +1 / -1 exactly once per iteration, and compared
+    # with a constant by the loop's exit test (`while c < N`, `loop { if budget == 0 { break } budget -= 1; .. }`)
     for x in blocks:
         t = body.term(x)
         if t["k"] != "switch":
@@ -444,22 +513,25 @@ def loop_bound(ctx, body, head, blocks):
         if len(exits) != 1 or len(inside) != 1:
             continue
         d = body.source_def(t["discr"])
-        if d is None or d[1] != "assign" or d[2]["rv"]["k"] != "binop" or d[2]["rv"]["op"] not in ("Lt", "Le", "Ne", "Gt", "Ge"):
+        if d is None or d[1] != "assign" or d[2]["rv"]["k"] != "binop" or d[2]["rv"]["op"] not in ("Lt", "Le", "Ne", "Gt", "Ge", "Eq"):
             continue
         rv = d[2]["rv"]
         a, b_ = rv["a"], rv["b"]
         op = rv["op"]
         if body.op_const(b_) is None and body.op_const(a) is not None:
             a, b_ = b_, a
-            op = {"Lt": "Gt", "Gt": "Lt", "Le": "Ge", "Ge": "Le", "Ne": "Ne"}[op]
+            op = {"Lt": "Gt", "Gt": "Lt", "Le": "Ge", "Ge": "Le", "Ne": "Ne", "Eq": "Eq"}[op]
         N_ = body.op_const(b_)
         if N_ is None or a["k"] not in ("copy", "move") or a["place"]["proj"]:
             continue
-        if op not in ("Lt", "Le", "Ne"):
-            continue
-        # which edge continues: the comparison true -> stays inside
+        # truth value of the comparison on the edge that stays inside the loop
         true_t = t["otherwise"]
-        if true_t not in blocks:
+        zero_t = [tb for v, tb in t["targets"] if v == 0]
+        if true_t in blocks and not (zero_t and zero_t[0] in blocks):
+            stay_truth = True
+        elif zero_t and zero_t[0] in blocks and true_t not in blocks:
+            stay_truth = False
+        else:
             continue
         # counter local: follow copies back to a multi-def local
         cl = a["place"]["local"]
@@ -479,23 +551,33 @@ def loop_bound(ctx, body, head, blocks):
         c0 = body.op_const(outside[0][2]["rv"]["op"]) if outside[0][2]["rv"]["k"] == "use" else None
         if c0 is None:
             continue
-        # the inner definition is counter + 1
+        # the inner definition is counter + 1 or counter - 1 (plain or overflow-checked)
         inc = inner[0][2]["rv"]
-        ok_inc = False
+        step = None
+
+        def step_of(rv2):
+            if rv2["k"] != "binop":
+                return None
+            o2 = rv2["op"].replace("WithOverflow", "").replace("Unchecked", "")
+            if o2 == "Add":
+                for u, w in ((rv2["a"], rv2["b"]), (rv2["b"], rv2["a"])):
+                    if body.op_const(w) == 1 and u["k"] in ("copy", "move") and not u["place"]["proj"] and u["place"]["local"] == cl:
+                        return 1
+            if o2 == "Sub":
+                if body.op_const(rv2["b"]) == 1 and rv2["a"]["k"] in ("copy", "move") and not rv2["a"]["place"]["proj"] and rv2["a"]["place"]["local"] == cl:
+                    return -1
+            return None
         if inc["k"] == "use" and inc["op"]["k"] in ("copy", "move"):
-            sd = body.unique_def(inc["op"]["place"]["local"])
-            if sd is not None and sd[1] == "assign" and sd[2]["rv"]["k"] == "binop" and sd[2]["rv"]["op"].startswith("Add"):
-                x1, x2 = sd[2]["rv"]["a"], sd[2]["rv"]["b"]
-                for u, w in ((x1, x2), (x2, x1)):
-                    if body.op_const(w) == 1 and u["k"] in ("copy", "move") and u["place"]["local"] == cl:
-                        ok_inc = True
-        elif inc["k"] == "binop" and inc["op"] == "Add":
-            for u, w in ((inc["a"], inc["b"]), (inc["b"], inc["a"])):
-                if body.op_const(w) == 1 and u["k"] in ("copy", "move") and u["place"]["local"] == cl:
-                    ok_inc = True
-        if not ok_inc:
+            pl2 = inc["op"]["place"]
+            if not pl2["proj"] or (len(pl2["proj"]) == 1 and pl2["proj"][0]["k"] == "field" and pl2["proj"][0]["i"] == 0):
+                sd = body.unique_def(pl2["local"])
+                if sd is not None and sd[1] == "assign":
+                    step = step_of(sd[2]["rv"])
+        else:
+            step = step_of(inc)
+        if step is None:
             continue
-        # every trip around the loop passes the increment
+        # every trip around the loop passes the update
         inc_bb = inner[0][0].bb
         seen = set()
         st = [inside[0]]
@@ -511,8 +593,28 @@ def loop_bound(ctx, body, head, blocks):
                 st.append(s_)
         if skipped:
             continue
-        trip = {"Lt": N_ - c0, "Ne": N_ - c0, "Le": N_ - c0 + 1}[op]
-        return {"trip": max(0, trip), "exh": (x, exits[0]), "kind": "counter", "next": None}
+        # the test is the first thing an iteration does: from the loop head only call-free straight-line blocks lead to it
+        y, hops2, first = head, 0, True
+        while y != x and hops2 < 6:
+            ss = [s_ for s_ in body.succs(y) if s_ in blocks]
+            if body.term(y)["k"] in ("call", "drop") or len(ss) != 1:
+                first = False
+                break
+            y = ss[0]
+            hops2 += 1
+        if not first or y != x:
+            continue
+        cmpf = {"Lt": lambda v: v < N_, "Le": lambda v: v <= N_, "Ne": lambda v: v != N_, "Gt": lambda v: v > N_, "Ge": lambda v: v >= N_,
+                "Eq": lambda v: v == N_}[op]
+        # the test comes first in every iteration (the update lies on the way from the test back to the head): count how often it says "stay"
+        v = c0
+        trip = 0
+        while cmpf(v) == stay_truth and trip <= 100000 and v >= 0:
+            trip += 1
+            v += step
+        if trip > 100000:
+            continue
+        return {"trip": trip, "exh": (x, exits[0]), "kind": "counter", "next": None}
     return None
 
 
